@@ -176,21 +176,53 @@ def merge_sweep(tier, seed=0):
                 break
         if fails:
             break
-    # update(priority="old") and environment collection
-    for _ in range(200 if tier == "quick" else 4000):
+    # update(priority="old" / "new-defaults"): the documented precedence, restated independently.  A scalar of `new`
+    # is written only where `old` has no entry under either spelling ("old": the old dictionary has preference -- an
+    # explicit None is an entry) or, with "new-defaults", where the old value still equals the current default.
+    def ref_update_p(old, new, priority, defaults):
+        for k, v in new.items():
+            ck = k
+            if k not in old:
+                alt = k.replace("_", "-") if "_" in k else k.replace("-", "_")
+                if alt in old:
+                    ck = alt
+            if isinstance(v, dict):
+                if not isinstance(old.get(ck), dict):
+                    old[ck] = {}
+                ref_update_p(old[ck], v, priority, defaults.get(ck) if defaults else None)
+            elif ck not in old:
+                old[ck] = v
+            elif priority == "new":
+                old[ck] = v
+            elif priority == "new-defaults" and defaults and ck in defaults and defaults[ck] == old[ck]:
+                old[ck] = v
+
+    for n_ in range(600 if tier == "quick" else 8000):
         cases += 1
         a, b = rand_dict(2), rand_dict(2)
-        sa, sb = copy.deepcopy(a), copy.deepcopy(b)
+        prio = ("old", "new-defaults", "new")[n_ % 3]
+        dfl = rnd.choice([None, {}, copy.deepcopy(a), rand_dict(2)]) if prio == "new-defaults" else None
+        sa, sb, sd = copy.deepcopy(a), copy.deepcopy(b), copy.deepcopy(dfl)
+        want = copy.deepcopy(sa)
         try:
-            C.update(a, b, priority="old")
-            want = ref_merge([copy.deepcopy(sb), copy.deepcopy(sa)]) if False else None
+            ref_update_p(want, copy.deepcopy(sb), prio, copy.deepcopy(sd))
+        except (AttributeError, TypeError):
+            continue  # `defaults` has a scalar where `new` has a section: not a defaults mapping for this update
+        try:
+            got = C.update(a, b, priority=prio, defaults=dfl)
             msg = None
             if b != sb:
                 msg = f"update modified its second argument: {sb!r} -> {b!r}"
+            elif got is not a:
+                msg = "update did not return the dictionary it updates in place"
+            elif a != want:
+                msg = f"update(priority={prio!r}) gives {a!r}, the documented precedence gives {want!r}"
         except Exception as e:  # noqa
             msg = f"{type(e).__name__}: {e}"
         if msg:
-            fails.append(rtc.Failure("config.update", {"old": sa, "new": sb}, "ensures", "C17-merge-update-precedence", msg))
+            fails.append(rtc.Failure("config.update", {"old": sa, "new": sb, "priority": prio, "defaults": sd}, "ensures", "C17-merge-update-precedence", msg))
+            if len(fails) >= 4:
+                break
     for env, want in [({"DASK_A": "1"}, {"a": 1}), ({"DASK_A__B": "x", "DASK_A__C": "[1, 2]"}, {"a": {"b": "x", "c": [1, 2]}}), ({"DASK_A_B": "True", "OTHER": "3"}, {"a_b": True}),
                       ({"DASK_X__Y_Z": "1.5"}, {"x": {"y_z": 1.5}}), ({}, {})]:
         cases += 1
